@@ -1,7 +1,9 @@
 /* C10 harness: record-aware man-in-the-middle between an honest client and an honest server.
- *   layout <proto> <auth> <seed>
+ *   layout <proto> <auth> <seed> [plan]
  *        fault-free run; prints per direction the records that crossed the proxy (type:len)
- *   fault <proto> <auth> <seed> <kind> <dir> <idx> <off> <bit> <keep>
+ *   fault <proto> <auth> <seed> <kind> <dir> <idx> <off> <bit> <keep> [plan]
+ *        plan = application messages each side sends after the handshake: [x]len[:pad],... (d = two of 16 bytes;
+ *        x = through the harness' record-level sender, which can emit empty and padded records)
  *        kind: flip drop dup swap trunc-close trunc-fixlen inject ; dir 0 = client->server
  *        prints both handshake return values and, for a side that returned 1, the results of two
  *        subsequent receive calls (after it sent one application message)
@@ -20,7 +22,7 @@ static pki_t *get_pki(void) {
 /* second receive after the post exchange of endpoint_main */
 typedef struct { int r2; size_t l2; } post2_t;
 
-static int run(int protocol, int auth, uint64_t seed, fault_t *f, int timeout_ms, int want_layout) {
+static int run(int protocol, int auth, uint64_t seed, fault_t *f, int timeout_ms, int want_layout, const char *plan) {
 	pki_t *k = get_pki(); session_t *S; uint8_t *schain = NULL, *cchain = NULL; size_t schainlen = 0, cchainlen = 0;
 	int d, i;
 	if (!k) { printf("ERR setup"); return -1; }
@@ -33,14 +35,22 @@ static int run(int protocol, int auth, uint64_t seed, fault_t *f, int timeout_ms
 			k->root.der, k->root.len) != 1) { printf("ERR setup"); free(schain); free(cchain); free(S); return -1; }
 	S->c.seed = seed * 2 + 1; S->s.seed = seed * 2 + 2;
 	S->c.post = S->s.post = 1;
+	ep_plan(&S->c, plan); ep_plan(&S->s, plan);
 	if (f) S->px.fault = *f;
 	session_run(S, timeout_ms, 0);
 	printf("rc=%d rs=%d", S->c.hs_ret, S->s.hs_ret);
 	printf(" pc=%d:%d:%zu ps=%d:%d:%zu", S->c.post_send_ret, S->c.post_recv_ret, S->c.post_recv_ret == 1 ? S->c.post_recv_len : 0,
 		S->s.post_send_ret, S->s.post_recv_ret, S->s.post_recv_ret == 1 ? S->s.post_recv_len : 0);
-	printf(" okc=%d oks=%d", S->c.post_accepted == 2 && !S->c.post_deviates, S->s.post_accepted == 2 && !S->s.post_deviates);
-	printf(" accc=%d:%d accs=%d:%d", S->c.post_accepted, S->c.post_deviates, S->s.post_accepted, S->s.post_deviates);
-	printf(" retsc=%d,%d,%d retss=%d,%d,%d", S->c.post_rets[0], S->c.post_rets[1], S->c.post_rets[2], S->s.post_rets[0], S->s.post_rets[1], S->s.post_rets[2]);
+	{
+		int np = S->c.nplan ? S->c.nplan : 2, i;
+		printf(" okc=%d oks=%d", S->c.post_accepted == np && !S->c.post_deviates, S->s.post_accepted == np && !S->s.post_deviates);
+		printf(" accc=%d:%d accs=%d:%d", S->c.post_accepted, S->c.post_deviates, S->s.post_accepted, S->s.post_deviates);
+		printf(" retsc="); for (i = 0; i < S->c.post_ncalls; i++) printf("%s%d", i ? "," : "", S->c.post_rets[i]); if (!S->c.post_ncalls) printf("-");
+		printf(" retss="); for (i = 0; i < S->s.post_ncalls; i++) printf("%s%d", i ? "," : "", S->s.post_rets[i]); if (!S->s.post_ncalls) printf("-");
+		printf(" seqc=%02x%02x:%02x%02x seqs=%02x%02x:%02x%02x", S->c.conn->client_seq_num[6], S->c.conn->client_seq_num[7], S->c.conn->server_seq_num[6], S->c.conn->server_seq_num[7],
+			S->s.conn->client_seq_num[6], S->s.conn->client_seq_num[7], S->s.conn->server_seq_num[6], S->s.conn->server_seq_num[7]);
+		printf(" np=%d", np);
+	}
 	printf(" applied=%d", S->px.fault.applied);
 	if (want_layout) {
 		for (d = 0; d < 2; d++) {
@@ -60,12 +70,12 @@ static int kind_of(const char *s) {
 }
 
 static void handle(size_t nw, char **w) {
-	if (!strcmp(w[0], "layout") && nw == 4) run(proto_of(w[1]), atoi(w[2]), strtoull(w[3], NULL, 10), NULL, 6000, 1);
-	else if (!strcmp(w[0], "fault") && nw == 10) {
+	if (!strcmp(w[0], "layout") && (nw == 4 || nw == 5)) run(proto_of(w[1]), atoi(w[2]), strtoull(w[3], NULL, 10), NULL, 6000, 1, nw == 5 ? w[4] : "d");
+	else if (!strcmp(w[0], "fault") && (nw == 10 || nw == 11)) {
 		fault_t f; memset(&f, 0, sizeof f);
 		f.kind = kind_of(w[4]); f.dir = atoi(w[5]); f.idx = atoi(w[6]); f.off = strtoul(w[7], NULL, 10); f.bit = atoi(w[8]) & 7; f.keep = strtoul(w[9], NULL, 10);
 		if (f.kind < 0 || proto_of(w[1]) < 0) { printf("ERR bad-op"); return; }
-		run(proto_of(w[1]), atoi(w[2]), strtoull(w[3], NULL, 10), &f, 1500, 0);
+		run(proto_of(w[1]), atoi(w[2]), strtoull(w[3], NULL, 10), &f, 800, 0, nw == 11 ? w[10] : "d");
 	}
 	else printf("ERR bad-op");
 }
